@@ -356,12 +356,40 @@ func TestVerifC01L1(t *testing.T) {
 		p.IPs = sessionIPs(r, i, false)
 		plans = append(plans, p)
 	}
+	// downloads whose bridge side closes as soon as it has written everything, and whose
+	// carrier dies (cut, or half-open then cut, then a gap or refused connects) somewhere in
+	// the tail: whatever was in flight must still arrive through the carriers that follow
+	nBC := vlib.Scale(16, 80)
+	for i := 0; i < nBC; i++ {
+		if i%nshards != shard {
+			continue
+		}
+		r := root.SplitN("bridge-closes", i)
+		p := &sessionPlan{Tag: r.Uint64() | 1, LenUp: 0, LenDown: uint64(r.Range(60<<10, 700<<10)), BridgeCloses: true}
+		for k := r.Intn(3); k > 0; k-- {
+			p.Carriers = append(p.Carriers, carrierPlan{Kind: "cut", CutUp: genCut(r, 300), CutDown: -1})
+		}
+		tail := carrierPlan{Kind: "cut", CutUp: -1, CutDown: int64(p.LenDown) * int64(r.Range(20, 100)) / 100}
+		if r.Chance(1, 3) {
+			tail.Kind, tail.StallMs = "stall", r.Range(100, 1500)
+		}
+		p.Carriers = append(p.Carriers, tail)
+		switch r.Intn(3) {
+		case 0:
+			p.Carriers = append(p.Carriers, carrierPlan{Kind: "refuse"}, carrierPlan{Kind: "refuse"})
+		case 1:
+			p.Carriers = append(p.Carriers, carrierPlan{Kind: "cut", GapMs: r.Range(200, 1500), CutUp: -1, CutDown: int64(r.Range(2000, 40000))})
+		}
+		p.IPs = sessionIPs(r, i, false)
+		plans = append(plans, p)
+	}
 	run := runSessions(res, plans, time.Duration(vlib.Scale(480, 1200))*time.Second, 32)
 	if run == nil {
 		res.Require(false, "server started")
 		return
 	}
 	run.judge("C01")
+	res.RequireObs("bridge_side_closed_right_after_writing", int64(nBC/nshards/2))
 	faults := res.GetObs("faults_cut_up") + res.GetObs("faults_cut_down") + res.GetObs("faults_stall") + res.GetObs("faults_refuse")
 	res.Obs("faults_total", faults)
 	res.RequireObs("faults_total", int64(len(plans)*nFaults/14))
